@@ -53,6 +53,7 @@ type world struct {
 	// local-allocator mode: the members' allocators are LocalTSOAllocators of one dc-location with this
 	// suffix, and the manager's max suffix yields `bits` suffix bits (bits = 0: the global allocator)
 	bits, suffix int
+	sleepHook    func() // runs inside every (injected) sleep of the tso package
 }
 
 const localDC = "dc-verif"
@@ -258,6 +259,21 @@ func (w *world) exec(op string) (string, int) {
 		return "ok", id
 	case f[0] == "getts" && len(f) == 3:
 		ts, err := m.alloc.GenerateTSO(uint32(atoi(f[2])))
+		if err != nil {
+			return errStr(err), id
+		}
+		return fmt.Sprintf("ts %d %d", ts.Physical, ts.Logical), id
+	case f[0] == "gettsx" && len(f) >= 5: // member, count, k, hook ops (':' for ' '): run during the k-th sleep of the retry loop
+		k, n := int(atoi(f[3])), 0
+		w.sleepHook = func() {
+			if n++; n == k {
+				for _, h := range f[4:] {
+					w.exec(strings.ReplaceAll(h, ":", " "))
+				}
+			}
+		}
+		ts, err := m.alloc.GenerateTSO(uint32(atoi(f[2])))
+		w.sleepHook = nil
 		if err != nil {
 			return errStr(err), id
 		}
@@ -494,7 +510,26 @@ func gen(w *world, t *trace.W, r *rng.R, maxOps int) {
 			}
 			continue
 		}
-		switch r.Pick(34, 22, 7, 5, 3, 10, 7, 2, 1, 3, 2) {
+		switch r.Pick(34, 22, 7, 5, 3, 10, 7, 2, 1, 3, 2, 6) {
+		case 11:
+			// a request that has to retry (counter overflow, or memory not yet synchronised) while, during its
+			// sleep, the updater advances the time / the allocator is synchronised / the lease runs out
+			if r.Bool(1, 2) {
+				w.run(t, fmt.Sprintf("resetmem %d", m))
+			} else {
+				w.run(t, fmt.Sprintf("getts %d %d", m, []int{131071, 200000, 262143}[r.Intn(3)]>>uint(w.bits)))
+			}
+			elapsed += 2e6
+			hooks := [][]string{
+				{fmt.Sprintf("update:%d:%d:none", m, clock(m))},
+				{fmt.Sprintf("update:%d:%d:none", m, clock(m)), fmt.Sprintf("expire:%d", m)},
+				{fmt.Sprintf("sync:%d:%d:none", m, clock(m))},
+				{fmt.Sprintf("sync:%d:%d:none", m, clock(m)), fmt.Sprintf("expire:%d", m)},
+				{fmt.Sprintf("expire:%d", m)},
+				{fmt.Sprintf("resetmem:%d", m), fmt.Sprintf("sync:%d:%d:none", m, clock(m))},
+				{fmt.Sprintf("update:%d:%d:before", m, clock(m))},
+			}[r.Intn(7)]
+			w.run(t, fmt.Sprintf("gettsx %d %d %d %s", m, counts[r.Intn(len(counts))], r.Range(1, 3), strings.Join(hooks, " ")))
 		case 10:
 			w.run(t, "dropkey")
 			keyDropped = true
@@ -595,7 +630,11 @@ func main() {
 	defer cancel()
 	w := &world{e: e, ctx: ctx, mems: map[int]*mem{}}
 	tso.VerifClock = func() time.Time { return time.Unix(0, atomic.LoadInt64(&w.now)) }
-	tso.VerifSleep = func(time.Duration) {}
+	tso.VerifSleep = func(time.Duration) {
+		if h := w.sleepHook; h != nil {
+			h()
+		}
+	}
 	t := trace.Create(*out)
 	defer t.Close()
 	if *replay != "" {
